@@ -212,8 +212,27 @@ impl<'m> VConv<'m> {
             }
             ir::Expression::Call(id, ct, args) => {
                 let fr = &self.m.function_registry;
-                if fr.get_intrinsic_data(*id).is_some() {
-                    return unsup("CallIntrinsic");
+                if let Some(intr) = fr.get_intrinsic_data(*id) {
+                    // a pure math / bit / reduction built-in with its resolved signature: (intr Name ret (types…) args…)
+                    let name = format!("{:?}", intr);
+                    if *ct != ir::CallType::FreeFunction || name.contains('(') || name.contains(' ') || !super::vval::is_vector_builtin(&name) {
+                        return unsup("CallIntrinsic");
+                    }
+                    let sig = fr.get_function_signature(*id);
+                    let ret = ir_vtype(self.m, sig.return_type.return_type);
+                    let mut tys = Vec::new();
+                    for p in &sig.param_types {
+                        if p.input_modifier != ir::InputModifier::In {
+                            return unsup("IntrinsicOutParam");
+                        }
+                        tys.push(ir_vtype(self.m, p.type_id));
+                    }
+                    hist.add(&format!("intr:{}", name));
+                    let mut v = vec![a(&name), ret, l(tys)];
+                    for x in args {
+                        v.push(self.expr(x, hist));
+                    }
+                    return node("intr", v);
                 }
                 if fr.get_function_implementation(*id).is_none() {
                     return unsup("CallNoBody");
